@@ -11,7 +11,22 @@ use rand::prelude::*;
 use serde_json::{json, Value};
 
 fn malformed(p: &str, which_recv: usize) -> Vec<u8> {
+    // (several shapes of "malformed" where the format has more than one way to be wrong: D8 only asks that the fault-free
+    // run reports a non-timeout error on it)
+    thread_local! { static ALT: std::cell::Cell<u32> = const { std::cell::Cell::new(0) }; }
+    let alt = ALT.with(|a| { a.set(a.get().wrapping_add(1)); a.get() });
     match p {
+        // the connectionless prefix is right, the command is not the status reply
+        "quake1" | "quake2" | "quake3" if alt % 2 == 0 => b"\xff\xff\xff\xffdisconnect\n".to_vec(),
+        // the pong id is right, the magic is not
+        "bedrock" if alt % 2 == 0 => {
+            let mut d = vec![0x1c];
+            d.extend(9_833_440_827_789_222_417u64.to_le_bytes());
+            d.extend([0u8; 8]);
+            d.extend([0x55u8; 16]);
+            d.extend([0, 4, b'M', b'C', b'P', b'E']);
+            d
+        }
         "gs1" => b"\\hostname\\x\\queryid\\abc.1\\final\\".to_vec(), // query id is not a number
         "gs3" | "jc2m" => {
             if which_recv == 0 {
